@@ -470,17 +470,13 @@ Proof.
   intros file. unfold open_archive.
   destruct (load_footer file) as [f| |] eqn:Ef; cbn [bind]; try discriminate.
   - intro H. exists f. split; [reflexivity|]. revert H. unfold alloc_crash.
-    destruct (4294967296 <=? 8 * (af_nspans f + 1)) eqn:E1; [intros _; lia|].
-    destruct (read_section file _ (8 * af_nspans f)) as [sp| |] eqn:R1; cbn [bind]; try discriminate.
-    + destruct (4294967296 <=? 8 * af_chunks f) eqn:E2; [intros _; lia|].
-      destruct (read_section file _ (8 * af_chunks f)) as [pf| |] eqn:R2; cbn [bind]; try discriminate.
-      * destruct (read_section file _ (8 * af_chunks f)) as [rf| |] eqn:R3; cbn [bind]; try discriminate.
-        -- destruct (4294967296 <=? 12 * af_chunks f) eqn:E3; [intros _; lia|].
-           destruct (read_section file _ (12 * af_chunks f)) as [sf| |] eqn:R4; cbn [bind]; try discriminate.
-           exfalso; exact (read_section_np _ _ _ R4).
-        -- exfalso; exact (read_section_np _ _ _ R3).
-      * exfalso; exact (read_section_np _ _ _ R2).
-    + exfalso; exact (read_section_np _ _ _ R1).
+    repeat match goal with
+    | |- context [if ?c <=? ?x then _ else _] => destruct (c <=? x) eqn:?; [intros _; lia|]
+    | |- context [bind (read_section ?a ?b ?c) _] =>
+      let R := fresh "R" in destruct (read_section a b c) eqn:R; cbn [bind];
+      [ | discriminate | exfalso; exact (read_section_np _ _ _ R)]
+    end.
+    discriminate.
   - unfold load_footer in Ef. destruct (blen file <? 220) in Ef; [discriminate|].
     destruct (negb _) in Ef; [discriminate|]. destruct (3 <? _) in Ef; discriminate.
 Qed.
@@ -720,5 +716,5 @@ Proof.
     cbn [input_wf] in Hwf. rewrite forallb_forall in Hwf.
     assert (Hr : resolve t sh <> Panic) by (first [exact (resolve_np t sh (Hwf _ Hs)) | exact (resolve_np crc32c t sh (Hwf _ Hs))]).
     destruct (resolve t sh); [reflexivity | reflexivity | contradiction].
-  - reflexivity.
+  - cbn [input_wf] in Hwf. cbn [o_open o_res o_iter o_gm o_class o_extra forallb]. rewrite Hwf. reflexivity.
 Qed.
